@@ -712,4 +712,231 @@ Section DijkstraWF.
     destruct Hi as [l Hl]. exists pairs, l. split; [exact Hp|]. split; [exact Hl|].
     apply (involving_spec teqb teqb_spec threads g x weighted l pairs Hp Hl).
   Qed.
+
+  (* ================================================================ totality (C20): no Panic, no OutOfFuel *)
+
+  (* index level, ANY weights (an Err ContradictoryPaths is a legal outcome with negative weights) *)
+  Theorem wf_dijkstra_fine (g : gstate) weighted src target cutoff fo wp :
+    WF g -> small_adj g -> (src < n_of g)%nat -> fine (dijkstra g weighted src target cutoff fo wp).
+  Proof.
+    intros W Hs Hsrc. pose proof (WF_wf_adj g W Hs) as Ha.
+    apply (dijkstra_fine g weighted (wf_len g Ha) (wf_range g Ha) (wf_small g Ha) wp src target cutoff fo Hsrc).
+  Qed.
+
+  Theorem wf_dijkstra_basic_fine (g : gstate) weighted src :
+    WF g -> small_adj g -> (src < n_of g)%nat -> fine (dijkstra_basic g weighted src).
+  Proof.
+    intros W Hs Hsrc. pose proof (WF_wf_adj g W Hs) as Ha.
+    apply (dijkstra_basic_fine g weighted (wf_len g Ha) (wf_range g Ha) (wf_small g Ha) src Hsrc).
+  Qed.
+
+  Theorem wf_run_from_index_fine (g : gstate) weighted si (target : option T) ti cutoff fo wp :
+    WF g -> small_adj g -> (si < n_of g)%nat -> fine (run_from_index g weighted si target ti cutoff fo wp).
+  Proof.
+    intros W Hs Hsi. unfold run_from_index. destruct (can_use_basic target cutoff fo wp);
+      [apply wf_dijkstra_basic_fine | apply wf_dijkstra_fine]; assumption.
+  Qed.
+
+  (* every index an Ok answer mentions is a node index — whatever the weights *)
+  Lemma dijkstra_basic_indexes (g : gstate) weighted src r :
+    wf_adj g -> dijkstra_basic g weighted src = Ok r ->
+    forall k i, In (k, i) r -> (k < n_of g)%nat /\ sp_paths i = [].
+  Proof.
+    intros Ha H k i Hin. pose proof (wf_len g Ha) as Hlen.
+    unfold dijkstra_basic in H. apply bind_ok in H. destruct H as [s0 [H0 H]].
+    apply bind_ok in H. destruct H as [s [Hloop H]]. unfold get_shortest_path_infos in H.
+    destruct (infos_from_paths g Hlen _ _ _ _ _ H _ _ Hin) as [_ [Hn Hp]]. split; [|exact Hp].
+    rewrite Nat.sub_0_r in Hn.
+    assert (Hk : (k < length (d_dist s))%nat) by (apply nth_error_Some; congruence).
+    unfold dijkstra_init in H0. apply bind_ok in H0. destruct H0 as [paths [Hps H0]].
+    apply bind_ok in H0. destruct H0 as [seen [Hseen H0]]. inversion H0; subst s0. clear H0.
+    apply set_at_ok in Hseen. apply set_at_ok in Hps.
+    assert (Hsrc : (src < n_of g)%nat).
+    { pose proof Hseen as Hlt. apply set_nth_lt in Hlt. rewrite repeat_length in Hlt. exact Hlt. }
+    assert (Hsl : length seen = n_of g).
+    { pose proof Hseen as Hl'. apply set_nth_length in Hl'. rewrite repeat_length in Hl'. exact Hl'. }
+    assert (Hpl : length paths = n_of g).
+    { pose proof Hps as Hl'. apply set_nth_length in Hl'. rewrite repeat_length in Hl'. exact Hl'. }
+    set (s0 := mkd (repeat None (n_of g)) seen paths [mkfr src 0 0] 0) in *.
+    assert (Sh0 : shape g true s0).
+    { split; cbn; [apply repeat_length | exact Hsl | intros _; exact Hpl | | lia].
+      intros it [<- | []]. exact Hsrc. }
+    assert (Hp0 : pend (repeat None (n_of g)) (successors_vec g) = number_of_entries g).
+    { rewrite <- Hlen. rewrite pend_init. reflexivity. }
+    assert (B0 : budget g s0 0) by (unfold budget; cbn; rewrite Hp0; lia).
+    destruct (basic_loop_fine g weighted Hlen (wf_range g Ha) (wf_small g Ha) true (dijkstra_fuel g) s0 Sh0 B0) as [_ R1].
+    { cbn. rewrite Hp0. unfold dijkstra_fuel. lia. }
+    rewrite <- (sh_d _ _ _ (R1 s Hloop)). exact Hk.
+  Qed.
+
+  Lemma run_from_index_indexes (g : gstate) weighted si (target : option T) ti cutoff fo wp r :
+    wf_adj g -> run_from_index g weighted si target ti cutoff fo wp = Ok r ->
+    forall k i, In (k, i) r ->
+      (k < n_of g)%nat /\ forall p j, In p (sp_paths i) -> In j p -> (j < n_of g)%nat.
+  Proof.
+    intros Ha H k i Hin. unfold run_from_index in H. destruct (can_use_basic target cutoff fo wp).
+    - destruct (dijkstra_basic_indexes g weighted si r Ha H k i Hin) as [Hk Hp]. split; [exact Hk|].
+      intros p j Hpin. rewrite Hp in Hpin. destruct Hpin.
+    - destruct (dijkstra_paths_sound g weighted si (wf_len g Ha) _ _ _ _ _ H k i Hin) as [[p0 Hw0] [Hps _]].
+      split; [eapply (walk_end_lt g weighted Ha); exact Hw0|].
+      intros p j Hp Hj. eapply (walk_nodes_lt g weighted Ha); [apply Hps; exact Hp | exact Hj].
+  Qed.
+
+  Lemma omapM_total {X Y} (f : X -> outcome Y) l :
+    (forall x, In x l -> exists y, f x = Ok y) -> exists ys, omapM f l = Ok ys.
+  Proof.
+    induction l as [|x l IH]; intros H; cbn [omapM]; [eauto|].
+    destruct (H x (or_introl eq_refl)) as [y Hy]. rewrite Hy. cbn [bind].
+    destruct IH as [ys Hys]; [intros x' Hx'; apply H; right; exact Hx'|]. rewrite Hys. cbn [bind]. eauto.
+  Qed.
+
+  Lemma name_of_index_total (g : gstate) site j :
+    names_wf teqb g -> (j < n_of g)%nat -> exists y, name_of_index site g j = Ok y.
+  Proof.
+    intros Hnm Hj. destruct (nw_rev teqb g Hnm j Hj) as [y [Hy _]]. exists y. apply (name_of_index_name g site j y). exact Hy.
+  Qed.
+
+  (* the index -> name conversion never panics on such an answer *)
+  Lemma convert_total (g : gstate) r :
+    names_wf teqb g ->
+    (forall k i, In (k, i) r -> (k < n_of g)%nat /\ forall p j, In p (sp_paths i) -> In j p -> (j < n_of g)%nat) ->
+    exists m, convert_shortest_path_info_vec_to_t_map teqb g r = Ok m.
+  Proof.
+    intros Hnm. unfold convert_shortest_path_info_vec_to_t_map. generalize (@nil (T * spinfo T)).
+    induction r as [|[k i] r IH]; intros acc Hall; cbn [ofold]; [eauto|]. cbn [fst snd].
+    destruct (Hall k i (or_introl eq_refl)) as [Hk Hp].
+    destruct (name_of_index_total g "dijkstra.rs:694" k Hnm Hk) as [x ->]. cbn [bind].
+    assert (Hci : exists i', convert_shortest_path_info_index_to_t g i = Ok i').
+    { unfold convert_shortest_path_info_index_to_t.
+      destruct (omapM_total (omapM (name_of_index "dijkstra.rs:671" g)) (sp_paths i)) as [ps ->]; [|cbn; eauto].
+      intros p Hpin. apply omapM_total. intros j Hj. apply name_of_index_total; [exact Hnm | eapply Hp; eauto]. }
+    destruct Hci as [i' ->]. cbn [bind]. apply IH. intros k0 i0 Hin. apply Hall. right. exact Hin.
+  Qed.
+
+  (* single_source: ANY weights, ANY names (absent: Err NodeNotFound), ANY cutoff *)
+  Theorem wf_single_source_fine (g : gstate) weighted source target cutoff fo wp :
+    WF g -> small_adj g -> fine (single_source teqb g weighted source target cutoff fo wp).
+  Proof.
+    intros W Hs. pose proof (WF_wf_adj g W Hs) as Ha. pose proof (WF_names_wf g W) as Hnm.
+    unfold single_source. apply fine_bind.
+    - unfold get_node_index. destruct (lookup teqb source (nodes_map g)); exact I.
+    - intros si Hsi. apply fine_bind.
+      + destruct target as [t|]; [|exact I]. unfold get_node_index. destruct (lookup teqb t (nodes_map g)); exact I.
+      + intros ti _. assert (Hlt : (si < n_of g)%nat).
+        { unfold get_node_index in Hsi. destruct (lookup teqb source (nodes_map g)) as [j|] eqn:E; [|discriminate].
+          inversion Hsi; subst j. apply (nw_map teqb g Hnm _ _ E). }
+        apply fine_bind; [apply wf_run_from_index_fine; assumption|].
+        intros r Hr. destruct (convert_total g r Hnm (run_from_index_indexes g weighted si target ti cutoff fo wp r Ha Hr)) as [m ->].
+        exact I.
+  Qed.
+
+  (* multi_source / all_pairs / get_all_shortest_paths_involving unwrap the per-source
+     Result, so a ContradictoryPaths (negative weights) IS a panic there
+     ([negative_weights_panic] below): totality needs non-negative stored weights. *)
+  Theorem wf_multi_source_fine threads (g : gstate) weighted sources target cutoff fo wp :
+    WF g -> small_adj g -> (weighted = true -> weights_nonneg g) -> cutoff_exceeded cutoff 0 = false ->
+    fine (multi_source teqb threads g weighted sources target cutoff fo wp).
+  Proof.
+    intros W Hs Hw Hc. destruct (forallb (in_names teqb g) sources) eqn:E1.
+    - assert (Hsrc : forall s, In s sources -> In s (names g)).
+      { intros s Hin. apply in_names_iff. rewrite forallb_forall in E1. apply E1. exact Hin. }
+      assert (Hok : (forall t, target = Some t -> In t (names g)) ->
+                    fine (multi_source teqb threads g weighted sources target cutoff fo wp)).
+      { intros Ht. destruct (wf_multi_source threads g weighted sources target cutoff fo wp W Hs Hw Hsrc Ht Hc) as [mm [-> _]]. exact I. }
+      destruct target as [t|]; [|apply Hok; discriminate].
+      destruct (in_names teqb g t) eqn:E2.
+      + apply Hok. intros t' E. inversion E; subst t'. apply in_names_iff. exact E2.
+      + unfold multi_source. rewrite (has_nodes_spec teqb tltb teqb_spec g sources W), E1. cbn [bind negb].
+        rewrite (has_node_spec teqb tltb teqb_spec g t W). unfold in_names in E2. rewrite E2. exact I.
+    - unfold multi_source. rewrite (has_nodes_spec teqb tltb teqb_spec g sources W), E1. exact I.
+  Qed.
+
+  Theorem wf_all_pairs_fine threads (g : gstate) weighted target cutoff fo wp :
+    WF g -> small_adj g -> (weighted = true -> weights_nonneg g) -> cutoff_exceeded cutoff 0 = false ->
+    fine (all_pairs teqb threads g weighted target cutoff fo wp).
+  Proof.
+    intros W Hs Hw Hc.
+    assert (Hcore : (weighted = true -> edges_have_weight g = true) ->
+                    fine (all_pairs teqb threads g weighted target cutoff fo wp)).
+    { intros Hew.
+      assert (Hok : (forall t, target = Some t -> In t (names g)) ->
+                    fine (all_pairs teqb threads g weighted target cutoff fo wp)).
+      { intros Ht. destruct (wf_all_pairs threads g weighted target cutoff fo wp W Hs Hw Hew Ht Hc) as [mm [-> _]]. exact I. }
+      destruct target as [t|]; [|apply Hok; discriminate].
+      destruct (lookup teqb t (nodes_map g)) as [j|] eqn:E.
+      - apply Hok. intros t' Et. inversion Et; subst t'. apply name_at_In. exists j. apply (lookup_name_at g t j W). exact E.
+      - unfold all_pairs.
+        assert (H1 : (if weighted then ensure_weighted g else Ok tt) = Ok tt).
+        { destruct weighted; [|reflexivity]. unfold ensure_weighted. rewrite (Hew eq_refl). reflexivity. }
+        rewrite H1. cbn [bind]. unfold get_node_index. rewrite E. exact I. }
+    destruct weighted; [|apply Hcore; discriminate].
+    destruct (edges_have_weight g) eqn:E; [apply Hcore; reflexivity|].
+    rewrite (all_pairs_unweighted_store threads g target cutoff fo wp E). exact I.
+  Qed.
+
+  Theorem wf_involving_fine threads (g : gstate) (x : T) weighted :
+    WF g -> small_adj g -> (weighted = true -> weights_nonneg g) ->
+    exists l, get_all_shortest_paths_involving teqb threads g x weighted = Ok l.
+  Proof.
+    intros W Hs Hw. pose proof (wf_all_pairs_fine threads g weighted None None false true W Hs Hw eq_refl) as F.
+    unfold get_all_shortest_paths_involving.
+    destruct (all_pairs teqb threads g weighted None None false true); cbn in F; try contradiction; eauto.
+  Qed.
+
+  (* ---- executable forms of the two premises, for concrete graphs ---- *)
+  Definition weights_nonneg_b (g : gstate) : bool :=
+    forallb (fun e : edge => match ew e with Some z => Z.leb 0 z | None => true end) (get_all_edges g).
+
+  Lemma weights_nonneg_b_sound (g : gstate) : weights_nonneg_b g = true -> weights_nonneg g.
+  Proof.
+    unfold weights_nonneg_b, weights_nonneg. rewrite forallb_forall. intros H e z He Hz.
+    specialize (H e He). rewrite Hz in H. apply Z.leb_le. exact H.
+  Qed.
 End DijkstraWF.
+
+(* ------------------------------------------------------------------ non-vacuity *)
+Lemma Zeqb_spec : forall x y : Z, Z.eqb x y = true <-> x = y.
+Proof. exact Z.eqb_eq. Qed.
+Lemma Zltb_asym : forall x y : Z, Z.ltb x y = true -> Z.ltb y x = false.
+Proof. intros x y H. apply Z.ltb_lt in H. apply Z.ltb_ge. lia. Qed.
+Lemma Zltb_total : forall x y : Z, Z.ltb x y = false -> Z.ltb y x = false -> x = y.
+Proof. intros x y H1 H2. apply Z.ltb_ge in H1. apply Z.ltb_ge in H2. lia. Qed.
+
+(* the example graph of DijkstraModelOk.v ([ex_state]: built by the transcribed
+   constructor, i.e. by a history of add_node / add_edge calls) meets every hypothesis of
+   the end-to-end theorems: it is WF because it is reachable, it is small, its stored
+   weights are non-negative and all present, and the entry points return answers on it *)
+Example reachable_hypotheses_nonvacuous :
+  match ex_state with
+  | Ok g =>
+    reachable Z.eqb Z.ltb ex_specs g /\ WF Z.eqb Z.ltb g /\
+    small_adj g /\ weights_nonneg g /\ edges_have_weight g = true /\
+    name_at g 0 = Some 5%Z /\ In 1%Z (names g) /\
+    (exists m, single_source Z.eqb g true 5%Z (Some 1%Z) (Some (9 # 2)%Q) false true = Ok m /\ length m = 4%nat) /\
+    (exists mm, multi_source Z.eqb 1 g true [3%Z; 5%Z] None None false true = Ok mm /\ length mm = 2%nat) /\
+    (exists mm, all_pairs Z.eqb 1 g true None None false true = Ok mm /\ length mm = 4%nat)
+  | _ => False
+  end.
+Proof.
+  destruct ex_state as [g| | |] eqn:E; try (vm_compute in E; discriminate).
+  assert (R : reachable Z.eqb Z.ltb ex_specs g).
+  { apply (new_from_reachable Z.eqb Z.ltb Zeqb_spec _ _ _ _ E). }
+  split; [exact R|]. split; [apply (WF_reachable Z.eqb Z.ltb Zeqb_spec Zltb_asym Zltb_total _ _ R)|].
+  clear R. vm_compute in E. inversion E; subst g. clear E.
+  split; [vm_compute; reflexivity|]. split; [apply weights_nonneg_b_sound; vm_compute; reflexivity|].
+  split; [vm_compute; reflexivity|]. split; [vm_compute; reflexivity|]. split; [vm_compute; tauto|].
+  split; [|split]; vm_compute; eexists; split; reflexivity.
+Qed.
+
+(* why multi_source / all_pairs need non-negative weights for totality: they unwrap the
+   per-source Result, so the ContradictoryPaths of a negative-weight graph is a panic
+   there, while single_source returns it as an Err *)
+Example negative_weights_panic :
+  match ex_neg with
+  | Ok g =>
+    single_source Z.eqb g true 1%Z None None false true = Err ContradictoryPaths /\
+    multi_source Z.eqb 1 g true [1%Z] None None false true = Panic "dijkstra.rs:376" /\
+    all_pairs Z.eqb 1 g true None None false true = Panic "dijkstra.rs:172"
+  | _ => False
+  end.
+Proof. vm_compute. repeat split. Qed.
